@@ -167,3 +167,94 @@ func MergeSigCorr(c *Ctx, r *rand.Rand) (fails []Failure, feat string) {
 	}
 	return nil, "sig-rejected"
 }
+
+// L2.mergedirs: merge.go's comparison of the directives APPLIED to two declarations of one thing against Md.listsEqual
+// (lean/GwModel/MergeDirs.lean). Two lists over a small alphabet of applications — repeatable directives applied
+// several times, with equal and with different arguments — are written on a shared object type or on one of its
+// fields; both service orders go through gateway.New.
+var dirAlphabet = []string{`@r(n: 1)`, `@r(n: 2)`, `@r`, `@t(x: "a")`, `@t(x: "b")`, `@s`}
+
+func genDirList(r *rand.Rand) []string {
+	var l []string
+	usedS := false
+	for n := r.Intn(5); n > 0; n-- {
+		d := dirAlphabet[r.Intn(len(dirAlphabet))]
+		if d == "@s" {
+			if usedS {
+				continue // not repeatable
+			}
+			usedS = true
+		}
+		l = append(l, d)
+	}
+	return l
+}
+
+func MergeDirsCorr(c *Ctx, r *rand.Rand) (fails []Failure, feat string) {
+	if c.Drv == nil {
+		return nil, ""
+	}
+	l1 := genDirList(r)
+	var l2 []string
+	switch r.Intn(5) {
+	case 0:
+		l2 = genDirList(r)
+	case 1: // a permutation
+		l2 = append([]string{}, l1...)
+		r.Shuffle(len(l2), func(i, j int) { l2[i], l2[j] = l2[j], l2[i] })
+	case 2: // one application replaced by another one that also occurs (same length, same set, other multiset)
+		l2 = append([]string{}, l1...)
+		if len(l2) >= 2 {
+			l2[r.Intn(len(l2))] = l1[r.Intn(len(l1))]
+		}
+	case 3: // one application replaced by any
+		l2 = append([]string{}, l1...)
+		if len(l2) >= 1 {
+			d := dirAlphabet[r.Intn(len(dirAlphabet)-1)]
+			l2[r.Intn(len(l2))] = d
+		}
+	default:
+		l2 = append([]string{}, l1...)
+	}
+	onType := r.Intn(2) == 0
+	sdl := func(l []string, k int) string {
+		t, f := "", ""
+		if onType {
+			t = " " + strings.Join(l, " ")
+		} else {
+			f = " " + strings.Join(l, " ")
+		}
+		return fmt.Sprintf("directive @r(n: Int) repeatable on FIELD_DEFINITION | OBJECT\ndirective @t(x: String) repeatable on FIELD_DEFINITION | OBJECT\ndirective @s on FIELD_DEFINITION | OBJECT\ntype Thing%s { f: String%s }\ntype Query { thing%d: Thing }\n", t, f, k)
+	}
+	s1, s2 := sdl(l1, 1), sdl(l2, 2)
+	in := map[string]interface{}{"service1": s1, "service2": s2}
+	if _, e := gqlparser.LoadSchema(&ast.Source{Input: s1}); e != nil {
+		return nil, "invalid-sdl"
+	}
+	if _, e := gqlparser.LoadSchema(&ast.Source{Input: s2}); e != nil {
+		return nil, "invalid-sdl"
+	}
+	ans, err := c.Drv.Call(map[string]interface{}{"op": "mergedirs", "a": l1, "b": l2})
+	if err != nil {
+		return []Failure{{Channel: "harness", Classifier: "harness-error", What: err.Error(), Input: in}}, ""
+	}
+	want := ans["equal"] == true
+	for _, order := range [][]string{{s1, s2}, {s2, s1}} {
+		spec := FedSpec{SDLs: map[string]string{"S1": order[0], "S2": order[1]}, Order: []string{"S1", "S2"}}
+		_, gerr := NewFed(spec, Store{})
+		if gerr != nil && strings.HasPrefix(gerr.Error(), "PANIC") {
+			return []Failure{{Channel: "L2.mergedirs", Classifier: "unclassified", What: "gateway.New panicked on two declarations with applied directives: " + firstLine(gerr.Error()), Input: in}}, ""
+		}
+		if (gerr == nil) != want {
+			what := "two declarations whose applied directives differ (not the same applications, each as many times) are accepted"
+			if gerr != nil {
+				what = "two declarations with the same applied directives (each as many times, in another order) are rejected: " + firstLine(gerr.Error())
+			}
+			return []Failure{{Channel: "L2.mergedirs", Classifier: "unclassified", What: what, Input: in, Expected: ans, Observed: ErrString(gerr)}}, ""
+		}
+	}
+	if want {
+		return nil, "dirs-accepted"
+	}
+	return nil, "dirs-rejected"
+}
